@@ -137,7 +137,7 @@ def gen_specs(rep, tier):
     # B. every kind x provenance
     box = [2, 2, 6, 6]
     for kind in G.KINDS:
-        for t in ((0, 1) if quick else (0, 1, 2)):
+        for t in (((G.KINDS.index(kind) + rep.seed) % 3,) if quick else (0, 1, 2)):
             els = template(kind, t)
             k2, els2 = second_column(kind)
             reps = 1 if quick else 4
@@ -149,7 +149,7 @@ def gen_specs(rep, tier):
                     [['from_pandas', npk]],
                     [base, ['filter_isin', sorted(rng.sample(range(6), rng.randint(0, 4)))]],
                     [base, ['cache'], ['filter_gt', rng.randint(0, 5)]],
-                    [base, ['cache'], ['cols', ['g', 'v']], ['persist']],
+                    [base, ['cache'], ['cols', ['h', 'v', 'g']], ['persist']],
                     [base, ['cache'], ['set_geometry', 'h']],
                     [['from_pandas', npk], ['set_geometry', 'h'], ['cache'], ['set_geometry', 'g']],
                     [base, ['pack', rng.randint(1, 4), rng.choice([1, 5, 15])]],
@@ -234,8 +234,8 @@ def apply_steps(df, steps, tmpdirs):
             try:
                 X = X.pack_partitions(npartitions=st[1], p=st[2])
                 X.compute()
-            except ValueError as e:
-                raise Unclaimed('pack_partitions: ' + str(e)[:80])
+            except Exception as e:   # C09 is about pack_partitions itself
+                raise Unclaimed('pack_partitions raises ' + type(e).__name__)
             ordered, index_kept = False, False
         elif op == 'parquet':
             d = tempfile.mkdtemp(prefix='sp_c06_')
@@ -250,6 +250,9 @@ def apply_steps(df, steps, tmpdirs):
                 kw['bounds'] = tuple(st[2])
                 expect = None
             X = read_parquet_dask(path, **kw)
+            if st[1] is None and expect is not None:
+                # which column is active after a plain read is C11 / C20's business
+                expect = expect.set_geometry(U.active_name(X))
         elif op == 'cxp':
             xs, ys = U.key_slices(tuple(st[1]))
             X = X.cx_partitions[xs, ys]
@@ -293,7 +296,8 @@ def check_frame(ctx, X, spec, expect, ordered, index_kept):
 
     # ---- contracts of the plumbing
     ref_sig = U.frame_sig(ref)
-    if sum((U.frame_sig(p) for p in parts), []) != ref_sig or X.npartitions != nparts:
+    if sum((U.frame_sig(p) for p in parts), []) != ref_sig or \
+            (X.npartitions != nparts and last != 'pack'):
         viol(ctx, 'contract:compute-is-not-concat:' + last,
              'X.compute() differs from the concatenation of the partitions of X', spec)
         return
@@ -389,9 +393,10 @@ def check_frame(ctx, X, spec, expect, ordered, index_kept):
                         classes.add('partition-overlaps-box')
         hit_bits.append(bits)
         try:
+            import pandas as pd
             dc = X.cx[xs, ys]
             dparts = U.compute_parts(dc)
-            dcc = dc.compute()
+            dcc = pd.concat(dparts) if rep.evaluations % 5 else dc.compute()
         except Exception as e:
             viol(ctx, 'cx-raises:' + last, f'cx[{key}] raised {type(e).__name__}: {str(e)[:200]}',
                  spec, key=key)
@@ -403,9 +408,9 @@ def check_frame(ctx, X, spec, expect, ordered, index_kept):
         if U.active_name(dc) != an:
             viol(ctx, 'cx-active-geometry:' + last, 'cx changed the active geometry', spec, key=key)
         # series form
-        sc = gs.cx[xs, ys].compute()
+        sc = gs.cx[xs, ys].compute() if key == tuple(spec['keys'][0]) or not quick_ops(rep) else None
         psc = ref_q.geometry.cx[xs, ys]
-        if U.frame_sig(sc) != U.frame_sig(psc):
+        if sc is not None and U.frame_sig(sc) != U.frame_sig(psc):
             viol(ctx, 'series-cx-differs:' + last,
                  f'ddf.geometry.cx[{key}] differs from the pandas series', spec, key=key)
         # cx_partitions: whole partitions, jointly containing every intersecting row
@@ -508,6 +513,10 @@ def check_frame(ctx, X, spec, expect, ordered, index_kept):
             ctx.sj_metas.append({**spec, 'how': how, 'right': rname})
 
 
+def quick_ops(rep):
+    return getattr(rep, 'tier_run', rep.tier) == 'quick'
+
+
 def run_spec(ctx, spec):
     from spatialpandas import GeoDataFrame  # noqa: F401
     rep = ctx.rep
@@ -559,6 +568,10 @@ def run(rep):
                 'operations; non-trivial = some key selects at least one row; distinct = distinct '
                 '(frame, provenance, keys)')
     ctx = Ctx(rep)
+    import numba
+    # the parallel kernels of PointArray.intersects start a thread team per call; one
+    # thread gives the same answers without the start-up cost
+    numba.set_num_threads(1)
     with dask.config.set(scheduler='synchronous'):
         for spec in gen_specs(rep, tier):
             try:
